@@ -152,6 +152,8 @@ def sc_bin(op, a, b, node):
 
 
 def sc_cmp(op, a, b, node):
+    if getattr(a, "not_one", False) and isinstance(b, Num) and b.q == 1 and op in ("==", "!="):
+        return Static(op == "!=")          # a symbolic count that the specification declares to be different from 1
     if isinstance(a, Num) and isinstance(b, Num):
         return Static({"<=": a.q <= b.q, "<": a.q < b.q, ">=": a.q >= b.q, ">": a.q > b.q, "==": a.q == b.q, "!=": a.q != b.q}[op])
     tys = {x.ty for x in (a, b) if isinstance(x, Sc)}
@@ -283,6 +285,8 @@ class Executor:
                 return Static(("len", base))
             if isinstance(base, Sc) and base.ty == "O" and n.attr in self.opaque_attrs:
                 return Sc("O", f"({self.opaque_attrs[n.attr]} {base.t})")
+            if isinstance(base, Vec) and base.ety == "O" and n.attr in self.opaque_attrs:
+                return Sc("O", f"({self.opaque_attrs[n.attr]} {materialise(base)})")
             if isinstance(base, (Sc, Num, Vec)) and n.attr == "dtype":
                 return Static("dtype")
             if isinstance(base, (Sc, Num)) and n.attr == "ndim":
